@@ -187,7 +187,7 @@ func (c *c18) Run(ctx *RunCtx) *RunResult {
 	os.MkdirAll(filepath.Join(root, "sub"), 0755)
 	iolog := filepath.Join(ctx.World, "iolog")
 	model := map[string][]byte{}
-	cand := []string{"a.txt", "b.txt", "c.dat", "sub/x.txt", "sub/y.txt", "ab.txt"}
+	cand := []string{"a.txt", "b.txt", "c.dat", "sub/x.txt", "sub/y.txt", "ab.txt", "a%d 100%.txt"}
 	nf := t.Range(1, len(cand))
 	for i := 0; i < nf; i++ {
 		var content []byte
